@@ -122,7 +122,8 @@ class FuncInfo:
 
     def loc(self, node: ast.AST | None = None) -> str:
         n = node if node is not None else self.node
-        return f"{self.module.relpath}:{getattr(n, 'lineno', 0)}"
+        # statements moved here by the inlining pre-pass keep their true source position
+        return f"{getattr(n, '_inlined_relpath', self.module.relpath)}:{getattr(n, 'lineno', 0)}"
 
     def __repr__(self) -> str:
         return f"<func {self.qualname}>"
